@@ -25,7 +25,9 @@ CONSTANTS
     Focus,            \* TRUE: reactions without substrate or without product atoms (influx / efflux) take only the
                       \* identity, the reversal and the constant-0 map (their maps multiply the family otherwise)
     OnlyInvolutive,   \* TRUE: build only involutive maps (used to show that the pinned shape is right on them)
-    DistAll,          \* TRUE: every combination of distributions per compound; FALSE: one rotating choice
+    DistAll,          \* TRUE: every combination of distributions (from Dists) per compound; FALSE: one rotating choice
+    Dists,            \* the distribution patterns offered when DistAll (1: unlabelled, 2: fully labelled, 3 and 4:
+                      \* weighted spreads that give the positions of a compound DIFFERENT enrichments)
     LinMode,          \* "doc" | "pinned"
     EmitOn
 
@@ -66,6 +68,11 @@ Tpl(id) ==
                           rxns |-> <<Rx("v0", <<>>, <<"A">>, <<"k0">>),
                                      Rx("v1", <<"A", "A">>, <<"B">>, <<"A", "A", "k1">>),
                                      Rx("v2", <<"B">>, <<>>, <<"B", "k2">>)>>]
+      [] id = "dimer" -> [cpds |-> <<"A", "B">>,
+                          init |-> [A |-> 12, B |-> 6], pars |-> [k0 |-> 12, k1 |-> 1, k2 |-> 4],
+                          rxns |-> <<Rx("v0", <<>>, <<"A">>, <<"k0">>),
+                                     Rx("v1", <<"A">>, <<"B", "B">>, <<"A", "k1">>),
+                                     Rx("v2", <<"B">>, <<>>, <<"k2", "B">>)>>]
       [] id = "tri"   -> [cpds |-> <<"A", "B", "C">>,
                           init |-> [A |-> 12, B |-> 6, C |-> 4], pars |-> [k1 |-> 1, k2 |-> 2, k3 |-> 3],
                           rxns |-> <<Rx("v1", <<"A">>, <<"B">>, <<"A", "k1">>),
@@ -173,7 +180,7 @@ Compute(d) ==
 PickDist ==
     /\ stage = "dist"
     /\ IF ci <= Len(T.cpds)
-       THEN /\ IF DistAll THEN \E k \in 1..NDist : dk' = dk @@ (T.cpds[ci] :> k)
+       THEN /\ IF DistAll THEN \E k \in Dists : dk' = dk @@ (T.cpds[ci] :> k)
                ELSE dk' = dk @@ (T.cpds[ci] :> ((Salt + ci) % NDist) + 1)
             /\ ci' = ci + 1 /\ UNCHANGED <<stage, sc>>
        ELSE stage' = "done" /\ sc' = Compute(dk) /\ UNCHANGED <<dk, ci>>
